@@ -170,9 +170,12 @@ CHECKS.update({
              "(..._inline_classes) and for classes given through $ref + $defs, recursive ones included, against the schema and the "
              "definitions the builder emits (..._with_classes: induction on the nesting of objects in the datum; the names C<n> / "
              "E<n> are proved injective); all hypotheses are executable and the run evaluates them on every case (about 90% of the "
-             "agreement cases lie inside the theorem, whose conclusion is what agree_case evaluates). Partial: dependentRequired, "
+             "agreement cases lie inside the theorem, whose conclusion is what agree_case evaluates). dependent_required is inside the class theorems: "
+             "C06_dependent_required_keyword_is_the_spec_rule proves the emitted keyword equivalent to the specification's "
+             "'required by' rule for every class, aliaser and object. Partial: "
              "reordered fields, fall_back_on_default and a per-call root schema over a class are evaluated case by case; "
-             "discriminated unions are probed on the implementation (two known findings). Tie: builder model = deserialization_schema (structural), jvalid = jsonschema (oracle), "
+             "discriminated unions and classes with flattened / pattern / additional properties fields are probed on the "
+             "implementation (three known findings). Tie: builder model = deserialization_schema (structural), jvalid = jsonschema (oracle), "
              "deserialize accepts iff jsonschema validates (model-free), on generated types x data.",
         note=SCHEMA_NOTE + " Common domain: literal start-anchored patterns, no integer-valued float, |int| < 2^1000, uniqueness "
              "of set-typed arrays not compared, no fall_back_on_default.",
